@@ -325,13 +325,15 @@ func (stmt *Statement) BuildCondition(query interface{}, args ...interface{}) []
 		case clause.Expression:
 			conds = append(conds, v)
 		case *DB:
-			v.executeScopes()
+			// work on an own instance: a reusable handle passed as grouped condition must not
+			// lose its scopes or have its conditions rewritten
+			v = v.getInstance().executeScopes()
 
 			if cs, ok := v.Statement.Clauses["WHERE"]; ok {
 				if where, ok := cs.Expression.(clause.Where); ok {
 					if len(where.Exprs) == 1 {
 						if orConds, ok := where.Exprs[0].(clause.OrConditions); ok {
-							where.Exprs[0] = clause.AndConditions(orConds)
+							where.Exprs = []clause.Expression{clause.AndConditions(orConds)}
 						}
 					}
 					conds = append(conds, clause.And(where.Exprs...))
